@@ -496,3 +496,109 @@ func r18loadX(c *core.Ctx, R string) {
 	c.Check(okUm, R, "stgutg.GetConfiguration:unmarshal", fn.Pos(), "yaml.Unmarshal(ReadFile(\"config.yaml\"), c)", "GetConfiguration must unmarshal the bytes of config.yaml into its receiver (%s)", why)
 	c.Check(okPost, R, "stgutg.GetConfiguration:no-post-processing", fn.Pos(), "only yaml.Unmarshal writes the configuration", "the configuration is modified after parsing (%s): values no longer reach the procedures unchanged", post)
 }
+
+// r17pcoMarshalX: Marshal of a PCO with two containers; the output stream must be
+// 0x80, then for each container ID (2 octets big-endian), length, contents.
+func r17pcoMarshalX(c *core.Ctx, R string) {
+	m := mustFunc(c, pNasC, "ProtocolConfigurationOptions.Marshal")
+	mem := core.NewMem()
+	// the list holds pointers to (or values of) container units: find out which from the field type
+	var elemIsPtr bool
+	if st, ok := m.Params[0].Type().Underlying().(*types.Pointer); ok {
+		if s2, ok := st.Elem().Underlying().(*types.Struct); ok {
+			for i := 0; i < s2.NumFields(); i++ {
+				if s2.Field(i).Name() == "ProtocolOrContainerList" {
+					if sl, ok := s2.Field(i).Type().Underlying().(*types.Slice); ok {
+						_, elemIsPtr = sl.Elem().Underlying().(*types.Pointer)
+					}
+				}
+			}
+		}
+	}
+	mem.Store("p0.ProtocolOrContainerList", core.AVal{K: core.ASlice, Path: "list", Lo: 0, Len: 2, NonNil: true}, nil)
+	var want []string
+	want = append(want, "128")
+	for i := 0; i < 2; i++ {
+		unit := fmt.Sprintf("list[%d]", i)
+		if elemIsPtr {
+			unit = fmt.Sprintf("u%d", i)
+			mem.Store(fmt.Sprintf("list[%d]", i), core.NonNilArg(core.AVal{K: core.APtr, Path: unit}), nil)
+		}
+		want = append(want, unit+".ProtocolOrContainerID<15:8>", unit+".ProtocolOrContainerID<7:0>", unit+".LengthOfContents", unit+".Contents[0:]@0")
+	}
+	ex := core.NewExec()
+	ex.OnCall = func(ev *core.AEvent, _ *core.AMem) (core.AVal, bool) {
+		if strings.HasPrefix(ev.Callee, "github.com/sirupsen/logrus.") {
+			return core.AVal{K: core.ATuple}, true
+		}
+		return core.AVal{}, false
+	}
+	outs, err := ex.Run(m, []core.AVal{core.NonNilArg(core.AVal{K: core.APtr, Path: "p0"})}, mem)
+	if err != nil || len(outs) != 1 || len(outs[0].Ret) != 1 || len(ex.Unsound) > 0 {
+		c.SoftUndecided("%s: PCO.Marshal could not be evaluated to one path (%v, %d outcomes, %v)", R, err, len(outs), ex.Unsound)
+		return
+	}
+	got := sliceContent(outs[0].Mem, outs[0].Ret[0])
+	c.Check(strings.Join(got, ",") == strings.Join(want, ","), R, "nasConvert.PCO.Marshal:order", m.Pos(), "0x80, then per container ID, length, contents",
+		"Marshal must write the header octet 0x80 and then ID, LengthOfContents, Contents of each container in that order; a PCO with two containers is written as [%s]", clip(strings.Join(got, ", ")))
+}
+
+// r17pcoAddX: every Add* helper appends one container whose LengthOfContents equals the number of
+// content octets it carries (and the number the container kind needs).
+func r17pcoAddX(c *core.Ctx, R string) {
+	for _, t := range []struct {
+		name string
+		n    int
+	}{{"AddDNSServerIPv4AddressRequest", 0}, {"AddDNSServerIPv6AddressRequest", 0}, {"AddIPAddressAllocationViaNASSignallingUL", 0},
+		{"AddDNSServerIPv4Address", 4}, {"AddDNSServerIPv6Address", 16}, {"AddIPv4LinkMTU", 2}} {
+		f := c.P.Func(pNasC, "ProtocolConfigurationOptions."+t.name)
+		if f == nil {
+			continue
+		}
+		c.Analysed(pNasC + ".PCO." + t.name)
+		ex := core.NewExec()
+		ex.OnCall = netSummaries
+		args := core.DefaultArgs(f)
+		args[0] = core.NonNilArg(args[0])
+		outs, err := ex.Run(f, args, nil)
+		if err != nil || len(outs) == 0 || len(ex.Unsound) > 0 {
+			c.SoftUndecided("%s: PCO.%s could not be evaluated (%v %v)", R, t.name, err, ex.Unsound)
+			continue
+		}
+		ok := true
+		detail := ""
+		nOK := 0
+		for _, o := range outs {
+			if o.Panicked {
+				continue
+			}
+			// the unit appended to the list: the last known element after the original list
+			lst := o.Mem.Load("p0.ProtocolOrContainerList", nil)
+			_, segs := o.Mem.Seq(lst.Path)
+			if lst.K != core.ASlice || len(segs) == 0 || len(segs[len(segs)-1].Cells) != 1 {
+				continue // a path that appends nothing (an address that does not parse)
+			}
+			u := segs[len(segs)-1].Cells[0]
+			if u.K != core.APtr {
+				ok, detail = false, "the appended element is not a container unit"
+				continue
+			}
+			ln, isK := o.Mem.Load(u.Path+".LengthOfContents", types.Typ[types.Uint8]).ConstVal()
+			cont := o.Mem.Load(u.Path+".Contents", types.NewSlice(types.Typ[types.Uint8]))
+			n := 0
+			if cont.K == core.ASlice {
+				n = cont.Len
+			}
+			nOK++
+			if !isK || int(ln) != n || n != t.n {
+				ok = false
+				detail = fmt.Sprintf("LengthOfContents=%d, %d octets appended", ln, n)
+			}
+		}
+		if nOK == 0 {
+			c.SoftUndecided("%s: PCO.%s appends no container on any evaluated path", R, t.name)
+			continue
+		}
+		c.Check(ok, R, "nasConvert.PCO."+t.name+":length", f.Pos(), fmt.Sprintf("LengthOfContents = %d = octets appended", t.n), "%s must set LengthOfContents to the %d content octets of its container kind (%s)", t.name, t.n, detail)
+	}
+}
